@@ -11,7 +11,7 @@ EnvChoices == { <<TRUE, "u2", TRUE, TRUE, "g", TRUE, "u1", 3, "u1">>, <<FALSE, "
                 <<TRUE, "u2", TRUE, TRUE, "no", TRUE, "u2", 1, "u1">>, <<TRUE, "u2", TRUE, FALSE, "g", TRUE, "u1", 2, "u2">> }
 Seconds == {<<WithId(TP[i], "q1", "permit")>> : i \in {8, 14, 20, 21}} \cup {<<WithId(TP[16], "q1", "permit"), WithId(TP[1], "q2", "forbid")>>}
 Coords == 1..8
-CasesOf(k) == {[pols |-> ps, pols2 |-> qs, envs |-> EnvChoices] : ps \in {x \in PolSets : (Len(x) + Len(x[1].conds[1][2])) % 8 = k - 1}, qs \in Seconds}
+CasesOf(k) == {[pols |-> ps, pols2 |-> qs, envs |-> EnvChoices] : ps \in {x \in PolSets : SetHash(x) % 8 = k - 1}, qs \in Seconds}
 Init == coord \in Coords /\ c = <<>>
 Next == c = <<>> /\ c' \in CasesOf(coord) /\ UNCHANGED coord
 Dump == PrintT("CASE " \o ToJson(c'))
